@@ -206,7 +206,13 @@ pub enum StepOutcome {
     Parked,
     Dead,
     Panicked,
+    /// the actor thread did not come back to `recv_from` within the real-time limit
+    /// (it is blocked somewhere, e.g. on a full channel)
+    Stuck,
 }
+
+/// Real-time limit for one loop iteration of an actor thread.
+const STEP_LIMIT: Duration = Duration::from_secs(20);
 
 fn slot_of(addr: SocketAddrV4) -> Option<Arc<Slot>> {
     net().lock().unwrap().nodes.get(&addr).cloned()
@@ -267,7 +273,11 @@ pub fn step(addr: SocketAddrV4, datagram: Option<(Vec<u8>, SocketAddrV4)>) -> St
         if st.parked && st.permits == 0 && st.steps > before {
             return StepOutcome::Parked;
         }
-        st = slot.cv.wait(st).unwrap();
+        let (g, t) = slot.cv.wait_timeout(st, STEP_LIMIT).unwrap();
+        st = g;
+        if t.timed_out() && !(st.parked && st.permits == 0 && st.steps > before) && !st.dead {
+            return StepOutcome::Stuck;
+        }
     }
 }
 
